@@ -21,7 +21,8 @@ class Wb2CsrWorld(World):
                        "Wishbone initiator (seeded closed-loop agent)")
     fault_kinds = ("select_mask_partial", "select_mask_zero", "back_to_back", "spaced",
                    "cyc_without_stb", "stb_without_cyc", "idle_signal_churn",
-                   "second_instance_in_process", "release_in_ack_cycle", "domain_reset_mid_transfer")
+                   "second_instance_in_process", "release_in_ack_cycle", "domain_reset_mid_transfer",
+                   "long_idle_spell")
     real_components = ("csr.wishbone.WishboneCSRBridge", "csr.Multiplexer (30 % of the runs)")
     assumptions = (
         "a reset of the clock domain returns the component to its initial state (the state the "
@@ -51,6 +52,8 @@ class Wb2CsrWorld(World):
         ratio = ww // cw
         caw = rng.range(max(1, log2(ratio)) if not rng.chance(0.05) else 1,
                         8 if not rng.chance(0.1) else 12)
+        if rng.chance(0.04):
+            caw = rng.range(17, 40)      # far more address bits than data bits
         cfg = {"cw": cw, "ww": ww, "caw": caw, "decoy": int(rng.chance(0.1)),
                "decoy_first": int(rng.chance(0.5)), "target": "stub"}
         if rng.chance(0.3) and caw <= 8:
@@ -73,7 +76,8 @@ class Wb2CsrWorld(World):
             selkind = rng.below(10)
             sel = (1 << ratio) - 1 if selkind < 4 else (0 if selkind == 4 else rng.bits(ratio))
             ops.append({"adr": rng.bits(waw), "we": rng.below(2), "sel": sel, "dat": rng.bits(ww),
-                        "gap": rng.choice([0, 0, 0, 1, 2, 3]),
+                        "gap": rng.choice([0, 0, 0, 1, 2, 3]) if not rng.chance(0.004)
+                        else rng.range(240, 300),          # a long quiet spell
                         "gap_cyc": rng.below(4), "gap_stb_only": int(rng.chance(0.15)),
                         "churn": rng.bits(32),
                         # asynchronous initiator: drops cyc and/or stb in the very cycle it sees
@@ -161,7 +165,10 @@ class Wb2CsrWorld(World):
                 p.set(wb.cyc, 0)
                 p.set(wb.stb, 0)
                 idle_ev = []
-                for _ in range(min(int(op.get("gap", 0)), 3)):
+                g_ = int(op.get("gap", 0))
+                if g_ >= 200:
+                    stats.fault("long_idle_spell")
+                for _ in range(g_ if g_ >= 200 else min(g_, 3)):
                     drive_regs()
                     watch(idle_ev)
                     t += 1
@@ -299,7 +306,8 @@ class Wb2CsrWorld(World):
             t = 0
             acks_for_cur = 0
             b2b = 0
-            cap = 40 + len(ops) * (ratio + 8)
+            cap = 40 + len(ops) * (ratio + 8) + sum(int(o.get("gap") or 0) for o in ops
+                                                      if int(o.get("gap") or 0) >= 200)
             while t < cap:
                 # ---- initiator agent -------------------------------------------------------
                 if cur is None and gap <= 0:
@@ -428,7 +436,10 @@ class Wb2CsrWorld(World):
                     if ack:
                         acks_for_cur += 1
                         stats.work += 1
-                        gap = min(int(cur.get("gap", 0)), 4)
+                        gap = int(cur.get("gap", 0))
+                        gap = gap if gap >= 200 else min(gap, 4)
+                        if gap >= 200:
+                            stats.fault("long_idle_spell")
                         gap_op = cur
                         if gap == 0:
                             stats.fault("back_to_back")
